@@ -134,7 +134,7 @@ class KTableCache(Singleton):
         
         forced = []
 
-        return set(molecules+forced)
+        return set(molecules+forced+list(self.opacity_dict.keys()))
 
     def load_opacity_from_path(self, path, molecule_filter=None):
         """
